@@ -28,8 +28,15 @@ ORDER_LIMIT = {"quick": 4, "thorough": 6}
 def options(spec, tier="quick"):
     listed = [x for x in spec[1:]]
     if listed:
-        extra = [""] if (tier == "thorough" and "" not in listed) else []
-        return [ABSENT] + listed + [UNLISTED] + extra
+        # unlisted values: a foreign word, the empty string, and near-misses of listed values (a proper prefix, a
+        # proper suffix, a changed case, two listed values joined as an error message would print them)
+        near = []
+        for cand in ("", listed[0][:-1], listed[0][1:], listed[0].upper(), listed[0] + " ", ", ".join(listed[:2])):
+            if cand not in listed and cand not in near:
+                near.append(cand)
+        if tier != "thorough":
+            near = near[:3]
+        return [ABSENT] + listed + [UNLISTED] + near
     return [ABSENT, "v"] + ([""] if tier == "thorough" else [])
 
 
@@ -155,8 +162,37 @@ def work(item):
     return acc
 
 
+def cross_rule_work(order):
+    """introspection of every rule queried in ONE process, in table order or reversed: an answer must not depend on
+    which rule was asked before (e.g. a cache keyed by attribute name only)"""
+    tab = ruleinfo.table()
+    names = sorted(tab)
+    if order == "reverse":
+        names.reverse()
+    acc = core.Acc()
+    for rn in names:
+        robj = mrule.Rule(rn)
+        for a, spec in tab[rn][0].items():
+            acc.count("introspection", 2)
+            case = {"rule": rn, "introspect": a, "cross_rule_order": order}
+            try:
+                r = robj.is_required_attribute(a)
+                vals = robj.allowed_attribute_values(a)
+            except Exception as e:  # noqa
+                acc.add_problem(problem("introspection_raised", case, expected="an answer", observed=repr(e), rule=rn))
+                continue
+            if r is not spec[0]:
+                acc.add_problem(problem("is_required_wrong", case, expected=spec[0], observed=r, rule=rn))
+            if list(vals) != list(spec[1:]):
+                acc.add_problem(problem("allowed_values_wrong", case, expected=spec[1:], observed=vals, rule=rn))
+    return acc
+
+
 def replay(case):
     rule_name = case["rule"]
+    if "cross_rule_order" in case:
+        a = cross_rule_work(case["cross_rule_order"])
+        return [p for ps in a.problems.values() for p in ps if core.jsonable(p["case"]) == case]
     if "attributes" not in case:
         a = work((rule_name, "quick"))
         return [p for ps in a.problems.values() for p in ps if core.jsonable(p["case"]) == case]
@@ -174,6 +210,7 @@ def replay(case):
 def explore(tier):
     tab = ruleinfo.table()
     accs = core.pmap(work, [(rn, tier) for rn in sorted(tab)])
+    accs += core.pmap(cross_rule_work, ["forward", "reverse"])
     acc = core.merge_all(accs)
     per = acc.notes.pop("per_rule", {})
     n = acc.counts.get("assignments", 0)
